@@ -96,3 +96,37 @@ extern "C" void h_truncated(void) {
         if (cut == full) { CHECK(f.hasKey("IARR") && f.hasKey("DARR")); }
     } catch (const std::exception&) { CHECK(cut < full); }
 }
+
+// ---- the same inductive step on a FORMATTED unified restart file (two steps of SEQNUM + INTEHEAD; SEQNUM values one symbolic digit)
+static const char* FNAME_F = "CASE.FUNRST";
+static const long FSTEP_BYTES = (31 + 13) + (31 + 37);       // header line 30 characters + newline; 12 characters per integer + newline
+extern "C" void h_rewind_formatted(void) {
+    int seq[2]; seq[0] = nondet_int(); seq[1] = nondet_int(); ASSUME(seq[0] >= 0 && seq[0] <= 2 && seq[1] > seq[0] && seq[1] <= seq[0] + 3);
+    int s = nondet_int(); ASSUME(s >= 0 && s <= seq[1] + 2);
+#ifdef VERIF_NATIVE
+    verif_memfile_name(1, FNAME_F); EclOutput* out = new EclOutput(FNAME_F, true, std::ios::out);
+#else
+    EclOutput* out = reinterpret_cast<EclOutput*>(out_storage); out->isFormatted = true; out->ix_standard = false;
+    verif_stream_bind(&out->ofileH, 1, 0); verif_memfile_name(1, FNAME_F);
+#endif
+    for (int i = 0; i < 2; ++i) { out->write(std::string("SEQNUM"), std::vector<int>{ seq[i] }); out->write(std::string("INTEHEAD"), std::vector<int>{ 10 + i, seq[i], 7 }); }
+    out->flushStream();
+    CHECK(verif_memfile_size(1) == 2 * FSTEP_BYTES);
+    std::vector<unsigned char> before(verif_memfile_size(1)); for (size_t i = 0; i < before.size(); ++i) before[i] = verif_memfile_byte(1, i);
+    ERst rst{ std::string(FNAME_F) };
+    CHECK(rst.listOfReportStepNumbers().size() == 2);
+    int keep = 0; while (keep < 2 && seq[keep] < s) ++keep;
+    OutputStream::Restart* w = reinterpret_cast<OutputStream::Restart*>(rst_storage);
+    w->openUnified(std::string(FNAME_F), true, s);
+    w->stream_->write(std::string("SEQNUM"), std::vector<int>{ s });
+    w->write(std::string("INTEHEAD"), std::vector<int>{ 99, s, 7 });
+    w->stream_->flushStream();
+    CHECK(verif_memfile_size(1) == (keep + 1) * FSTEP_BYTES);                            // the file equals a fresh file of the surviving steps plus the new one: same length ...
+    for (long i = 0; i < keep * FSTEP_BYTES; ++i) CHECK(verif_memfile_byte(1, i) == before[i]);
+    CHECK(verif_memfile_byte(1, keep * FSTEP_BYTES) == ' ' && verif_memfile_byte(1, keep * FSTEP_BYTES + 1) == '\'');      // ... and the new step starts with its header line
+    ERst again{ std::string(FNAME_F) };
+    const auto steps = again.listOfReportStepNumbers();
+    CHECK(steps.size() == (size_t) keep + 1);
+    for (int i = 0; i < keep; ++i) CHECK(steps[i] == seq[i]);
+    CHECK(steps[keep] == s);
+}
